@@ -10,7 +10,7 @@ from ..flow import parent_map
 from ..model import FuncInfo, Model, dotted, norm, walk_no_nested
 from ..report import Run
 from ..typestate import propagate
-from .common import ExcFlow, short
+from .common import CallGraph, ExcFlow, short
 from .C05 import _calls_in_stmt
 from . import registry_helpers as rh
 
@@ -84,17 +84,32 @@ def _forwarding(fi, call: ast.Call, raw: tuple[str, str]) -> str | None:
         return 'constructor / forwarding wrapper parameters (the callers are checked)'
     if raw in NONLITERAL_OK:
         return NONLITERAL_OK[raw]
+    # Notify(<6>, self.<attr>): a cease whose subcode is kept on the object - every value stored in that attribute by the
+    # class must be a cease subcode (a constant 1..10, None before it is set) or a parameter handed in by a caller
+    if _FOLDER is not None and fi.cls is not None and _FOLDER.fold(a, fi.module, fi.cls) == 6 and isinstance(b, ast.Attribute) and isinstance(b.value, ast.Name) and b.value.id == 'self':
+        stores = []
+        for m in fi.cls.methods.values():
+            ps = {x.arg for x in m.node.args.args + m.node.args.kwonlyargs}
+            for n in walk_no_nested(m.node):
+                if isinstance(n, (ast.Assign, ast.AnnAssign)):
+                    tg = n.targets[0] if isinstance(n, ast.Assign) else n.target
+                    if dotted(tg) == 'self.' + b.attr and n.value is not None:
+                        v = _FOLDER.fold(n.value, m.module, m.cls)
+                        stores.append(v is None or (isinstance(v, int) and 1 <= v <= 10) or (isinstance(n.value, ast.Name) and n.value.id in ps))
+        if stores and all(stores):
+            return 'cease with the subcode kept in self.%s: %d stores, each a cease subcode or a parameter' % (b.attr, len(stores))
     return None
 
 
 # non-literal code expressions, each traced to its literal origins by reading
-NONLITERAL_OK = {
-    ('6', 'self._teardown'): 'teardown code set by the API/stop paths to 2..4',
-}
+NONLITERAL_OK: dict = {}
+_FOLDER: Folder | None = None
 
 
 def check(model: Model, run: Run) -> None:
+    global _FOLDER
     folder = Folder(model)
+    _FOLDER = folder
     # ------------------------------------------------------------------ R1
     run.rule(
         'C10.R1',
@@ -223,6 +238,28 @@ def check(model: Model, run: Run) -> None:
         flat = [n[0] for n in names]
         run.check('Notify' in flat and 'Notification' in flat and flat.index('Notify') < flat.index('Notification'), runf.qualname, 'handler order %s' % flat, runf.loc(), 'except Notify must precede except Notification (Notify is a subclass)')
 
+    # a NOTIFICATION refused by the framing checks (Length 19 or 20, Length above the message size) is still a NOTIFICATION
+    # the peer sent: read_message must not turn the reader's error into a Notify for it
+    from ..alpha import Loc, facts
+
+    rmf = model.func('exabgp.reactor.protocol.Protocol.read_message')
+    run.analysed(rmf)
+    rl = Loc(model, rmf)
+    unpacked = rl.unpacked_from_call('Connection.reader_async')
+    errv = unpacked.get(4)
+    found_raise = 0
+    for r in walk_no_nested(rmf.node):
+        if not (isinstance(r, ast.Raise) and r.exc is not None and errv):
+            continue
+        e = rl.resolve(r.exc)
+        if isinstance(e, ast.Call) and model.call_matches(rmf.module, e, 'Notify') and any(isinstance(x, ast.Name) and x.id == errv for a in e.args for x in ast.walk(a)):
+            found_raise += 1
+            fs = facts(rl, r, keep=list(unpacked.values()))
+            ok = any('Message.CODE.NOTIFICATION' in f_ for f_ in fs)
+            run.check(ok, rmf.qualname, 'the framing error of the reader is raised as a Notify only for a message that is not a NOTIFICATION', rmf.loc(r), 'a NOTIFICATION whose header Length is 19 or 20 (or above the message size) fails the framing check: raised as Notify(1, 2) it is answered with a NOTIFICATION (RFC 4271 6.5 forbids it; Notification.unpack_message pads a short body for that very reason, but is never reached)')
+    if not found_raise:
+        run.cannot('read_message: the raise of the reader\'s framing error was not found')
+
     # ------------------------------------------------------------------ R4
     run.rule('C10.R4', 'in the `except Notify` arm of Peer._run new_notification is called exactly once on every path where a transport exists, followed by _reset on all paths, with no other write in between; Protocol.close drops the connection and every writer starts with a connection guard', floor=4)
     _r4_once(model, run, runf)
@@ -330,6 +367,17 @@ def check(model: Model, run: Run) -> None:
     _r7_notify_text(model, run)
 
     # ------------------------------------------------------------------ R5
+    # ------------------------------------------------------------------ R9 a timer that ends the session names itself
+    run.rule(
+        'C10.R9',
+        'a wait on the peer that is bounded by a timer (asyncio.wait_for, `async with asyncio.timeout`) ends, on expiry, in a '
+        'Notify raised by a TimeoutError arm placed where the expiry is raised: around the wait_for call, around the WHOLE '
+        '`async with` block (its expiry is raised when the block is left - an arm inside the block sees a CancelledError, never '
+        'the TimeoutError); the OPEN wait answers 5/1',
+        floor=1,
+    )
+    _r9_timers(model, run, folder)
+
     run.rule('C10.R5', 'every registered message type is handled or refused in ESTABLISHED: UPDATE and ROUTE-REFRESH have handlers, KEEPALIVE feeds the timer, NOTIFICATION is raised by read_message, anything else (OPEN) must be refused with 5/3', floor=3)
     _r5_types(model, run, folder)
 
@@ -467,3 +515,56 @@ def _r5_types(model: Model, run: Run, folder: Folder) -> None:
                 'a %s received while ESTABLISHED matches no handler of the main loop and is silently ignored; RFC 4271 8.2.2 / '
                 'RFC 6608 want the session closed with NOTIFICATION 5/3' % name.upper(),
             )
+
+
+def _r9_timers(model: Model, run: Run, folder: Folder) -> None:
+    from ..cfg import handler_names
+    from .C06 import _reaches_reader
+
+    cg = CallGraph(model)
+    n = 0
+    for fi in list(model.funcs_in('exabgp/reactor/')):
+        pm = None
+        sites: list[tuple[ast.AST, ast.AST, str]] = []  # (construct the expiry is raised by, what is awaited, text)
+        for x in walk_no_nested(fi.node):
+            if isinstance(x, ast.Call) and (dotted(x.func) or '').endswith('wait_for') and x.args:
+                sites.append((x, x.args[0], norm(x)[:70]))
+            if isinstance(x, ast.AsyncWith) and any(isinstance(it.context_expr, ast.Call) and (dotted(it.context_expr.func) or '').rsplit('.', 1)[-1] in ('timeout', 'timeout_at') for it in x.items):
+                sites.append((x, x, 'async with %s' % norm(x.items[0].context_expr)[:60]))
+        for construct, awaited, text in sites:
+            targets = []
+            for c in ast.walk(awaited):
+                if isinstance(c, ast.Call):
+                    targets.extend(t for t in model.callees(fi.module, c) if t in model.funcs)
+            if not targets or not _reaches_reader(model, cg, targets):
+                continue
+            n += 1
+            run.analysed(fi)
+            pm = pm or parent_map(fi.node)
+            arm = None
+            cur: ast.AST | None = construct
+            while cur is not None and arm is None:
+                p = pm.get(id(cur))
+                if isinstance(p, ast.Try) and any(b is cur for b in p.body):
+                    for h in p.handlers:
+                        if any('Timeout' in nm for nm in handler_names(h)):
+                            arm = h
+                cur = p
+            inst = '%s: %s' % (short(fi.qualname), text)
+            if arm is None:
+                inner = [h for t in ast.walk(construct) if isinstance(t, ast.Try) for h in t.handlers if any('Timeout' in nm for nm in handler_names(h))] if isinstance(construct, ast.AsyncWith) else []
+                run.violation(fi.qualname, '%s: no TimeoutError arm where the expiry is raised%s' % (text, ' (the arm inside the block is never taken)' if inner else ''), fi.loc(construct), 'the expiry of the timer reaches Peer._run as a bare TimeoutError: the session is dropped through the unhandled-exception arm without the NOTIFICATION that names the timer')
+                continue
+            pairs = [_pair(folder, fi, r.exc) for r in walk_no_nested(arm) if isinstance(r, ast.Raise) and isinstance(r.exc, ast.Call) and model.call_matches(fi.module, r.exc, 'Notify')]
+            want = (5, 1) if fi.qualname.endswith('._read_open') else None
+            ok = bool(pairs) and (want is None or pairs == [want])
+            run.check(ok, fi.qualname, '%s: expiry raises Notify%s' % (text, pairs), fi.loc(arm), 'the timer must end the session with a NOTIFICATION (OPEN wait: 5/1, RFC 6608)')
+    if n == 0:
+        run.cannot('no timed wait on a message read found in exabgp/reactor/')
+
+
+def _pair(folder: Folder, fi, call: ast.Call):  # noqa: ANN001
+    if len(call.args) < 2:
+        return None
+    c, s_ = folder.fold(call.args[0], fi.module, fi.cls), folder.fold(call.args[1], fi.module, fi.cls)
+    return (c, s_) if isinstance(c, int) and isinstance(s_, int) else None
